@@ -85,6 +85,10 @@ def main(tier):
             else:
                 ck.ok("R-C13-2", pk, sample={"mode": what, "iterations": sr.describe(o.iterations)} if n_paths % 53 == 1 else None)
     # ---- R-C13-3: setup() ownership
+    gm_fields = set(f["name"] for f in prog.cls("GMGPolar")["fields"])
+    for m_ in SETUP_OWNED:
+        if m_ not in gm_fields:
+            raise ir.AnalysisBroken("anchor vanished: GMGPolar::%s (a member this rule names; renamed or removed)" % m_)
     for ext, fmg, L in itertools.product(range(4), (False, True), (2, 3)):
         mode = {"L": L, "FMG": fmg, "extrapolation": ext, "max_iterations": 0}
         what = "setup ext=%s FMG=%s L=%d" % (EXT[ext], fmg, L)
